@@ -20,6 +20,7 @@ T = {
  "C15": ("stateful generation over accepted definitions with an exception oracle + single-fault mutation of accepted definitions with an inspection-report oracle", "Soundness: any exception escaping a conductor API call on a generated legal history of an accepted definition is a violation. Completeness: every planted fault (class x position x reference form) must be reported by inspect() at its site.", "documented rejections of status requests are not internal errors; R11 (owned by C17) abandons the run"),
  "C16": ("round-trip / type-exact transport oracle over generated JSON values; before/after context comparison for purity; exhaustive access-form enumeration for hiding", "Generated values through every stage of a two-task pipeline in both languages and all reference forms with persist/restore; mutating-expression shapes for purity; exhaustive internal-name access forms.", "strings with expression/comment delimiters and lone surrogates are outside the domain"),
  "C20": ("round-trip oracle for the inline parameter grammar + twin-definition differential (long form vs generated shorthand combination) with lock-step conducting", "Inline rendering of generated documented values parsed back type-exactly; twins composed, inspected and conducted in lock-step under one history with equal offers, contexts, errors, output.", "documented value grammar only; strings that are valid JSON object texts are not expressible inline as strings"),
+ "C17": ("generated failed histories x rerun request variants x multi-round continuation; state-diff oracle for rejected requests, quiescence oracle after acceptance, clean-run twin differential", "Rejected reruns (active workflow, non-existent execution) leave the state identical; accepted ones move to resuming, never get stuck, and converge to the status/executed multiset/output of the clean twin.", "twin compared on histories without late completions; R23 matched; R1 excluded"),
  "C18": ("stateful generation + temporal invariant over consecutive persisted states", "Append-only / frozen-record invariant over serialize()['state'] after every call of generated histories.", "with-items rerun reuses its record by design"),
 }
 LATER = {}
